@@ -214,7 +214,9 @@ fn jaeger_image(r: &SpanRecord) -> JSpan {
 
 struct Jaeger {
     sink: UdpSink,
-    reporter: Arc<Mutex<JaegerReporter>>,
+    /// report() runs on one helper thread so that a call that never returns is noticed
+    jobs: mpsc::Sender<Vec<SpanRecord>>,
+    done: mpsc::Receiver<bool>,
     drops0: Option<u64>,
     /// a report() call did not return: the reporter is unusable from here on
     stuck: bool,
@@ -225,7 +227,18 @@ impl Jaeger {
         let sink = UdpSink::new();
         let reporter = JaegerReporter::new(format!("127.0.0.1:{}", sink.port).parse().unwrap(), "svc-é").expect("jaeger reporter");
         let drops0 = udp_drops(sink.port);
-        Jaeger { sink, reporter: Arc::new(Mutex::new(reporter)), drops0, stuck: false }
+        let (jobs, job_rx) = mpsc::channel::<Vec<SpanRecord>>();
+        let (done_tx, done) = mpsc::channel();
+        std::thread::spawn(move || {
+            let mut reporter = reporter;
+            while let Ok(b) = job_rx.recv() {
+                let ok = std::panic::catch_unwind(std::panic::AssertUnwindSafe(|| reporter.report(b))).is_ok();
+                if done_tx.send(ok).is_err() {
+                    break;
+                }
+            }
+        });
+        Jaeger { sink, jobs, done, drops0, stuck: false }
     }
 
     /// Reports the batch; returns the datagrams (sizes) and the decoded spans in order.
@@ -233,17 +246,14 @@ impl Jaeger {
         if self.stuck {
             return Err("an earlier report() call never returned".into());
         }
-        // report() runs on a helper thread so that a call that never returns is noticed
-        let (tx, rx) = mpsc::channel();
-        let rep = self.reporter.clone();
-        let b = batch.to_vec();
-        std::thread::spawn(move || {
-            rep.lock().unwrap().report(b);
-            let _ = tx.send(());
-        });
-        if rx.recv_timeout(deadline).is_err() {
-            self.stuck = true;
-            return Err(format!("VIOLATION:report() did not return within {deadline:?}"));
+        self.jobs.send(batch.to_vec()).map_err(|_| "reporter thread is gone (it panicked?)".to_string())?;
+        match self.done.recv_timeout(deadline) {
+            Err(_) => {
+                self.stuck = true;
+                return Err(format!("VIOLATION:report() did not return within {deadline:?}"));
+            }
+            Ok(false) => return Err("VIOLATION:report() panicked".into()),
+            Ok(true) => {}
         }
         let dgrams = self.sink.drain()?;
         let mut sizes = Vec::new();
